@@ -197,19 +197,30 @@ func ReceiveSession(ctx context.Context, rw io.ReadWriter, state SessionState, n
 	return negotiateSession(ctx, jid.JID{}, jid.JID{}, rw, Received|state, negotiate)
 }
 
+// setDeadline arranges for all I/O on conn to fail once ctx is done.
+// The returned function stops watching the context and clears the deadline
+// again.
+// Unlike setWriteDeadline the deadline is left in place until then, so that
+// reads and writes that start after the context was canceled fail too instead
+// of blocking on an unresponsive peer.
 func setDeadline(ctx context.Context, conn net.Conn) context.CancelFunc {
 	cancelCtx, cancel := context.WithCancel(context.Background())
+	done := make(chan struct{})
 	go func() {
+		defer close(done)
 		select {
 		case <-ctx.Done():
 			/* #nosec */
 			conn.SetDeadline(aLongTimeAgo)
-			/* #nosec */
-			conn.SetDeadline(time.Time{})
 		case <-cancelCtx.Done():
 		}
 	}()
-	return cancel
+	return func() {
+		cancel()
+		<-done
+		/* #nosec */
+		conn.SetDeadline(time.Time{})
+	}
 }
 
 func setWriteDeadline(ctx context.Context, conn net.Conn) context.CancelFunc {
